@@ -197,6 +197,14 @@ pub fn sweep_timestamp(t: &Timestamp) {
     t.checked_add(Duration::days(1)),
     t.checked_sub(Duration::minutes(1))
   );
+  // durations as their JSON form admits them (negative, sub-second, extreme)
+  for text in ["[1,500000000]", "[-1,0]", "[0,-1]", "[9223372036854775807,999999999]", "[-9223372036854775808,0]", "[0,0]", "1", "-1"] {
+    if let Ok(d) = Duration::from_json(text) {
+      for r in [t.checked_add(d), t.checked_sub(d)].into_iter().flatten() {
+        use_all!(r.to_rfc3339(), r.to_unix(), format!("{r}"), r.to_json());
+      }
+    }
+  }
 }
 
 // ---------------------------------------------------------------------------------------------
@@ -301,6 +309,13 @@ fn ep_did_jwk_parse(data: &[u8]) -> Ep {
   let r = DIDJwk::parse(s);
   let _ = DIDJwk::from_str(s);
   let _ = DIDJwk::try_from(s);
+  // the serde route builds the value through its own conversion: everything the accessors assume has to hold there too
+  for j in [DIDJwk::from_json(&serde_json::to_string(s).unwrap_or_default()).ok(), DIDJwk::from_json_value(serde_json::Value::String(s.to_string())).ok()]
+    .into_iter()
+    .flatten()
+  {
+    sweep_did_jwk(&j);
+  }
   if let Ok(c) = CoreDID::parse(s) {
     let _ = DIDJwk::try_from(c.clone());
     if let Ok(doc) = identity_document::document::CoreDocument::expand_did_jwk(DIDJwk::try_from(c).unwrap_or_else(|_| {
@@ -322,6 +337,12 @@ fn ep_timestamp_parse(data: &[u8]) -> Ep {
   let Some(s) = text(data) else { return Ep::Rejected };
   let r = Timestamp::parse(s);
   let _ = Timestamp::from_str(s);
+  for t in [Timestamp::try_from(s).ok(), Timestamp::try_from(s.to_string()).ok(), Timestamp::from_json_value(serde_json::Value::String(s.to_string())).ok()]
+    .into_iter()
+    .flatten()
+  {
+    sweep_timestamp(&t);
+  }
   let _ = Timestamp::from_json(&serde_json::to_string(s).unwrap_or_default());
   if let Ok(n) = s.trim().parse::<i64>() {
     if let Ok(t) = Timestamp::from_unix(n) {
